@@ -59,7 +59,7 @@ PROPS = {
             "claimed": True, "engine": "fmt",
             "level_text": ("`matches_iff` / `matches_eq_spec` (the matcher is exactly 'ends in a no-space character or the set is *'), `add_star`, `mem_add` (Add is set union with * absorbing), the effective set computed by the pipeline (`C05_export`, `C05_messages_force`, `C05_env_adds`), and per format that the expressed decision is a function of the (sanitised) value taken before quoting (elvish, bash-ble, nushell, powershell, ion, zsh incl. the FULL quoting states, bash single candidate and common-prefix step); xonsh decides on the quoted text: decided counterexample, partial theorem, listed finding. Exact output correspondence and the no-space oracle on the real output for all formats; how the no-space set itself is built by the Actions (MultiParts dividers, ActionMultiPartsN separators, NoSpace, List, messages) is compared with the pure model on every generated expression (op invoke)."),
             "level_note": FMT_NOTE},
-    "C06": {"modules": ["Carapace.Props.C06"], "ops": [("value", {"quick": 6000, "thorough": 300000}), ("invoke", {"quick": 5000, "thorough": 200000}), ("parse", {"quick": 3000, "thorough": 100000})], "rule": FMT_RULE, "assumptions": FMT_ASSUME,
+    "C06": {"modules": ["Carapace.Props.C06"], "ops": [("value", {"quick": 6000, "thorough": 300000}), ("invoke", {"quick": 5000, "thorough": 200000}), ("parse", {"quick": 3000, "thorough": 100000}), ("entry", {"quick": 1500, "thorough": 40000})], "rule": FMT_RULE, "assumptions": FMT_ASSUME,
             "claimed": True, "engine": "fmt",
             "level_text": ('`integrateLoop_spec`: the numbering loop terminates within its fuel (pigeonhole over injective names, `findFree_spec`, `errName_inj`) and appends exactly one entry per message, in order, with the message as description, values pairwise distinct and distinct from all candidates; `C06_two_entries` (at least two entries), `C06_nospace` (no trailing space), the channel formats (list read from the source) leave candidates alone and carry the messages; the filler `_` fails to extend a typed word ending in E/ER/ERR: decided counterexample, partial theorem, listed finding. Exact output correspondence and the message oracle on the real output for all formats.'),
             "level_note": FMT_NOTE},
@@ -91,7 +91,7 @@ PROPS.update({
             "assumptions": ALG_ASSUME, "claimed": True, "engine": "alg", "category": "translation_validation",
             "level_text": ("Translation validation, not a proof of the Go code: in the pure Lean model `invoke` an Action is a value, so repeatability holds by construction (`C08_history`, `C08_repeatable`) and Context edits are local (`C08_ctx_local_sibling`, `C08_ctx_local_later`, `C08_setenv_visible_beneath`). What decides the property is the history run on the real library: the same Go values are kept alive, invoked repeatedly and interleaved with the actions built from them, and every step must equal (i) the same step repeated, (ii) what the same expression yields when built from scratch with fresh Go values, and the caller's Context must be unchanged afterwards; any trace an invocation leaves shows as a differing step. The pure model is compared too, but a difference between model and library alone is not counted against C08. The store model of DESIGN.md C08 layer (b) is not built."),
             "level_note": ALG_NOTE},
-    "C10": {"modules": ["Carapace.Props.C10"], "ops": [("repeat", {"quick": 1500, "thorough": 60000})], "rule": "expressions that produce equal displays / equal values through Batch, MultiParts, Suffix, plus random trees; each formatted 30 times in-process (Go randomises every map iteration) for one of 7 formats; non-trivial = every case; distinct = distinct input digest",
+    "C10": {"modules": ["Carapace.Props.C10"], "ops": [("repeat", {"quick": 1500, "thorough": 60000}), ("entry", {"quick": 1500, "thorough": 40000})], "rule": "expressions that produce equal displays / equal values through Batch, MultiParts, Suffix, plus random trees; each formatted 30 times in-process (Go randomises every map iteration) for one of 7 formats; non-trivial = every case; distinct = distinct input digest",
             "assumptions": ALG_ASSUME + ["goroutine scheduling and map iteration seeds are only sampled (30 repetitions per case); fresh-process repetition is not performed in the quick tier"],
             "claimed": True, "engine": "alg",
             "level_text": ("`C10_sorted_unique`: two sorted arrangements of the same candidates are the same list (for every permutation delivered by map iteration or scheduling and every sorting algorithm) because the order - display text, ties broken by value - is total on candidates with distinct (display, value) (`str_eq_of_not_lt`, `le_antisymm_key`), and `C10_unique_key`: after Unique (a map keyed by value) that condition holds. Runtime part searched, not proved: 30 in-process repetitions per generated case must be byte-identical."),
